@@ -96,6 +96,7 @@ def run(idx: ProgramIndex, rep: Report, tier: str):
         same_mask(fi, rep)
     keyed_cache(idx, rep)
     own_policy_key(idx, rep, consumers)
+    mask_layout(idx, rep, sorted(consumers, key=lambda f: (f.module.name, f.qualname)))
     override_coverage(idx, rep)
     mll_scaling(idx, rep)
     covariance_consumes(idx, rep)
@@ -342,3 +343,34 @@ def covariance_consumes(idx: ProgramIndex, rep: Report):
         rep.add("C16-6", "%s:%s.exact_predictive_covar" % (cls.module.name, cls.qualname), fi.where, ok,
                 "consumes the NaN policy" if ok else "the posterior covariance is computed from the full train x train covariance whatever the NaN policy: inputs whose targets are missing still reduce the predictive uncertainty (differs from the data-deleted model)", {})
     rep.floor("C16-6", "implementations of exact_predictive_covar", n, 4)
+
+
+# ---- C16-8: the mask is flattened in the layout of the covariance it indexes -------------------------------------------------
+def mask_layout(idx: ProgramIndex, rep: Report, consumers):
+    """`_get_observed(y, dist.event_shape)` returns the mask in the natural (.., n, t) layout of a multitask distribution;
+    `mask.reshape(-1)` flattens it point-major (interleaved).  Indexing `dist.lazy_covariance_matrix` with it is right only for an
+    interleaved covariance: a function that may receive a MultitaskMultivariateNormal has to consult `_interleaved` (flatten the
+    mask, the mean and the targets task-major otherwise)."""
+    rep.rule("C16-8", "a mask obtained for dist.event_shape is flattened in the layout of dist's covariance (functions that index a possibly non-interleaved multitask covariance consult _interleaved)")
+    n = 0
+    for fi in consumers:
+        masks = {}
+        for a in ast.walk(fi.node):
+            if isinstance(a, ast.Assign) and len(a.targets) == 1 and isinstance(a.targets[0], ast.Name) and isinstance(a.value, ast.Call) and isinstance(a.value.func, ast.Attribute) and a.value.func.attr == "_get_observed" and len(a.value.args) == 2:
+                shp = a.value.args[1]
+                if isinstance(shp, ast.Attribute) and shp.attr == "event_shape":
+                    masks[a.targets[0].id] = chain(shp.value)
+        for m, dist in sorted(masks.items()):
+            flat_on_cov = False
+            for c in calls_in(fi.node):
+                if (chain(c.func) or "").split(".")[-1] == "MaskedLinearOperator" and c.args and (chain(c.args[0]) or "").startswith(dist + "."):
+                    if any(isinstance(x, ast.Call) and isinstance(x.func, ast.Attribute) and x.func.attr in ("reshape", "view", "flatten") and chain(x.func.value) == m for a_ in c.args[1:] for x in ast.walk(a_)):
+                        flat_on_cov = True
+            if not flat_on_cov:
+                continue
+            n += 1
+            consults = any(isinstance(x, ast.Attribute) and x.attr in ("_interleaved", "interleaved") for x in ast.walk(fi.node))
+            rep.add("C16-8", "%s:%s[%s.reshape(-1) on %s covariance]" % (fi.module.name, fi.qualname, "mask", "the distribution's"), fi.where, consults,
+                    "the layout flag is consulted" if consults else
+                    "the (.., n, t) mask is flattened point-major and applied to `%s.lazy_covariance_matrix` without looking at _interleaved: for a non-interleaved multitask distribution (task-major covariance) other entries than the missing ones are removed" % dist, {})
+    rep.floor("C16-8", "masks flattened onto a distribution's covariance", n, 3)
